@@ -75,7 +75,7 @@ def worker_init():
 def run_one(prop, run_seed, tier, scenario=None):
     from . import seams
 
-    seams.install(probe=bool(os.environ.get("BIOSIM_PROBE")))
+    seams.install(probe=not os.environ.get("BIOSIM_NO_PROBE"))
     seams.reset_faults()
     m = load_machine(prop)
     sc = scenario if scenario is not None else m.gen_scenario(run_seed, tier)
@@ -100,7 +100,13 @@ def chunk_task(prop, seeds, tier, keep_first):
         except Exception as e:  # noqa: BLE001  harness exception (outside an op executor)
             res = {"property": prop, "run_seed": s, "violations": [], "anomalies": [], "budget_exceeded": [], "harness_error": f"{type(e).__name__}: {e}\n{traceback.format_exc()[-1500:]}", "nontrivial": False, "case_key": None, "stats": {}}
         results.append(slim(res, keep_first and j == 0))
-    return results
+    try:
+        from . import seams
+
+        reach = [t for t, hit in seams.reach_tags().items() if hit]
+    except Exception:  # noqa: BLE001
+        reach = []
+    return {"results": results, "reach": reach}
 
 
 def minimize_task(prop, trace, sig):
@@ -200,6 +206,7 @@ def batch(prop, tier, batch_seed, runs=None, wall=None, workers=None, write_evid
     ctx = mp.get_context("fork")
     ex = cf.ProcessPoolExecutor(max_workers=workers, mp_context=ctx, initializer=worker_init)
     results = []
+    reach = set()
     harness_errors = []
     next_i = 0
     pending = {}
@@ -218,7 +225,9 @@ def batch(prop, tier, batch_seed, runs=None, wall=None, workers=None, write_evid
             for fut in done:
                 _t, seeds = pending.pop(fut)
                 try:
-                    results.extend(fut.result())
+                    r = fut.result()
+                    results.extend(r["results"])
+                    reach.update(r["reach"])
                 except Exception as e:  # noqa: BLE001
                     harness_errors.append(f"worker failed on seeds {seeds}: {type(e).__name__}: {e}")
             now = time.time()
@@ -299,6 +308,10 @@ def batch(prop, tier, batch_seed, runs=None, wall=None, workers=None, write_evid
     for sig, path, info in unverified:
         harness_errors.append(f"replay of {path} did not reproduce {sig}: {str(info)[:300]}")
     ev = build_evidence(prop, m, tier, batch_seed, results, wall_s, len(violation_lines), known_lines, harness_errors, workers)
+    from .seams import TAGS
+
+    ev["coverage"]["reach_probes"] = {t: (t in reach) for t in sorted(TAGS)}
+    ev["coverage"]["reach_probe_measure"] = "anchored mechanisms (function + distinctive source line, matched by text) executed at least once in some worker of this batch (sys.monitoring LINE events)"
     if write_evidence:
         os.makedirs(EVIDENCE_DIR, exist_ok=True)
         with open(os.path.join(EVIDENCE_DIR, f"{prop}.json"), "w") as fh:
